@@ -11,6 +11,7 @@ import (
 	"github.com/getlantern/golog"
 	"github.com/getlantern/vtime"
 	"github.com/getlantern/wal"
+	"github.com/getlantern/goexpr"
 	"github.com/getlantern/zenodb/common"
 	"github.com/getlantern/zenodb/core"
 	"github.com/getlantern/zenodb/encoding"
@@ -19,6 +20,14 @@ import (
 )
 
 func zxItoa(i int) string { return strconv.Itoa(i) }
+
+// zxPipeField: a conditional field whose text contains the character that separates the field
+// descriptions in a filestore header: IF(m = 'x|y', SUM(b)) AS p. No harness point has dimension
+// m, so p never holds a value; what matters is what its text does to the fields next to it.
+func zxPipeField() core.Field {
+	cond, _ := goexpr.Binary("=", goexpr.Param("m"), goexpr.Constant("x|y"))
+	return core.NewField("p", expr.IF(cond, expr.SUM(expr.FIELD("b"))))
+}
 
 var (
 	zxFieldA = core.NewField("a", expr.SUM(expr.FIELD("a")))
@@ -101,15 +110,35 @@ func zxVal(seq encoding.Sequence, f core.Field) (float64, bool) {
 //
 //zx:harness prop=C03+C15 id=I tier=quick mode=real env=fs shard=old:4,new:4
 func zxC15Iterate() {
-	zxFSReset()
-	pool := []core.Fields{
+	zxC15IterateBody([]core.Fields{
 		{core.PointsField, zxFieldA},
 		{core.PointsField, zxFieldA, zxFieldB},
 		{zxFieldB, core.PointsField, zxFieldA}, // reordered
 		{core.PointsField, zxFieldA, zxFieldB2}, // b redefined under the same name
+	}, "I", false)
+}
+
+// I.P — the same obligations for schemas that contain a field whose text holds the character
+// that separates the field descriptions in a filestore header (IF(m = 'x|y', SUM(b)) AS p, placed
+// ahead of field a): what is stored for a must not depend on how its neighbour is spelled.
+//
+//zx:harness prop=C03+C15 id=I.P tier=quick mode=real env=fs shard=old:2,new:2
+func zxC15IteratePipe() {
+	zxC15IterateBody([]core.Fields{
+		{core.PointsField, zxFieldA},
+		{core.PointsField, zxPipeField(), zxFieldA},
+	}, "I.P", true)
+}
+
+func zxC15IterateBody(pool []core.Fields, reach string, skipPlainPair bool) {
+	zxFSReset()
+	oi, ni := vrtShape("old", len(pool)), vrtShape("new", len(pool))
+	if skipPlainPair && oi == 0 && ni == 0 {
+		vrtReach(reach)
+		return // covered by I
 	}
-	oldFields := pool[vrtShape("old", len(pool))]
-	newFields := pool[vrtShape("new", len(pool))]
+	oldFields := pool[oi]
+	newFields := pool[ni]
 	t, rs := zxTable(oldFields)
 	va1, vb1 := vrtFloat64("va1"), vrtFloat64("vb1")
 	va2, vb2 := vrtFloat64("va2"), vrtFloat64("vb2")
@@ -241,7 +270,7 @@ func zxC15Iterate() {
 		}
 	}
 	vrtAssert(seen["x"] == 1 && seen["y"] == 1 && seen["z"] == 1, "after the second flush every key is on disk exactly once")
-	vrtReach("I")
+	vrtReach(reach)
 }
 
 // C13.S — the table scan as a source: when the row callback returns an error, or asks to stop,
